@@ -43,16 +43,32 @@ def token_parts(rnd, tier, n_progs):
 
 class P:
     id = "C02"
-    rule = ("generated programs (depth 1-3, all productions, heredocs, comments, rich layout), their single-token mutants and truncations, "
-            "all strings of <= 3 symbols over 22 characters + 13 reserved words: the grammar model is run on the delivered token stream")
+    rule = ("(1) derivations: token lists generated from the grammar (every command form in each of 21 contexts under 3 layouts, plus random "
+            "derivations of depth 1-3 with all word forms, here-documents, nested substitutions), rendered with random grammar-preserving layout "
+            "(blanks, tabs, comments, line continuations, blank lines, optional blanks around operators): the delivered tokens must be the "
+            "derivation's terminals (newline tokens apart), the AST skeleton must be the one the Coq grammar model builds from them, the comments "
+            "must be returned in order; (2) generated programs, their single-token mutants (incl. glued composite words) and truncations, all "
+            "strings of <= 3 symbols over 22 characters + 13 reserved words, words in NAME/IO-number/assignment positions: the grammar model is "
+            "run on the delivered token stream and compared with the parser's verdict, skeleton and error token")
     assumptions = []
     exhaustive = True
 
     def parts(self, seed, tier, C):
         rnd = random.Random(seed)
-        return token_parts(rnd, tier, 3000 if tier == "quick" else 40000)
+        from props import dgen as D
+        cases = D.systematic(rnd)
+        g = D.DGen(rnd)
+        n = 5000 if tier == "quick" else 80000
+        for _ in range(n):
+            cases.append(D.case_line(g.program(rnd.choice([1, 2, 2, 3])), rnd, rnd.random() < 0.7))
+        deriv = {"name": "derivations-rendered", "harness": "tokens", "driver": "dtok", "cases": cases, "compare": lambda c, i, m: True,
+                 "nontrivial": lambda c: len(c.split("\t")[1].split("@")) >= 2,
+                 "distribution": {"systematic_context_x_command_x_layout": len(D.CONTEXTS) * len(D.COMMANDS) * 3, "random_derivations": n}}
+        return [deriv] + token_parts(rnd, tier, 3000 if tier == "quick" else 40000)
 
     def describe(self, part, case):
+        if len(case.split("\t")) == 3 and "#" in case.split("\t")[1]:
+            return "derivation rendered as %r" % unhx(case.split("\t")[0]).decode("utf-8", "replace")
         return G.describe(case)
 
     def classify(self, part, case, impl, model, judge, findings):
@@ -61,7 +77,8 @@ class P:
     def replay(self, payload, C):
         c = payload["case"]
         i = C.run_harness("tokens", [c])[0]
-        m, j = C.run_driver("ptok", [c], [i])[0]
+        drv = "dtok" if payload.get("part") == "derivations-rendered" else "ptok"
+        m, j = C.run_driver(drv, [c], [i])[0]
         print("case :", G.describe(c))
         print("impl :", i[:600])
         print("judge:", j[:600])
